@@ -34,10 +34,13 @@ def prepare(ctx):
 	bd, binary = build(ctx)
 	nv = VARIANTS[ctx.tier]
 	script = "".join("E 1 64 %d\n" % v for v in range(nv)).encode()
-	rc, out, err = cbuild.run(binary, script, timeout = 300)
+	rc, out, err = cbuild.run_patient(binary, script, timeout = 200)
 	if rc != 0 or len(out) != nv * 64 * PER_N:
 		rep = cbuild.sanitizer_summary(err)
-		if rep:
+		if rc == "hang":
+			ctx.violation("firmware-enum", {"note": "enumeration of the reduced space normally takes about a second"},
+				what = "rfch.c does not terminate: the enumeration did not finish within 200 s, twice")
+		elif rep:
 			ctx.violation("firmware-enum", {"stderr": err.decode(errors = "replace")[-2000:]},
 				what = "sanitizer report / crash in rfch.c during enumeration: %s" % rep)
 		else:
